@@ -1,10 +1,12 @@
 #!/bin/bash
 # Sensitivity regression: run every seeded change through the quick check of the property it breaks.
 #   tools/run_all_seeded.sh [tier]      -> seeded/RESULTS.txt ("<id> <PROP> detected|MISSED (exit code)")
-tier=${1:-quick}
-out=/verif/seeded/RESULTS.txt; : > $out
+tier=${1:-quick}; from=${2:-}
+out=/verif/seeded/RESULTS.txt; [ -n "$from" ] || : > $out
+export PSV_NO_SHRINK=1     # detection only: the replay files of each detection are already under seeded/<id>/replays
 for d in /verif/seeded/*/; do
   id=$(basename $d); [ -f $d/meta.json ] || continue
+  [ -n "$from" ] && [[ "$id" < "$from" ]] && continue
   prop=$(python3 -c "import json;print(json.load(open('$d/meta.json'))['breaks_property'])")
   /verif/tools/run_seeded.sh $d/patch.diff $prop $tier > /tmp/psv-seeded-run.log 2>&1; rc=$?
   sigs=$(grep -c "signature:" /tmp/psv-seeded-run.log)
